@@ -1,16 +1,17 @@
 (** C15 — an accepted configuration is a servable configuration.
 
     Executable model of
-      - src/config.rs : DefaultShard deserialisation (874-893), fill_up_auth_query_config
-        (1106-1122), Config::validate (1472-1554), Pool::validate (685-804),
-        Shard::validate (911-945), User::validate (250-262);
-      - src/pool.rs   : ConnectionPool::from_config (312-620) — the order in which shard keys
+      - src/config.rs : DefaultShard deserialisation (901-920), fill_up_auth_query_config
+        (1139-1155), Config::validate (1505-1599), Pool::validate (701-831),
+        Shard::validate (938-978), User::validate (250-278), is_auth_query_configured (644-648);
+      - src/pool.rs   : ConnectionPool::from_config (312-629) — the order in which shard keys
         are sorted, what number each Address carries and at which POSITION its bb8 pool, its
         address and its ban list are stored; the bb8 builder assertions
         (bb8-0.8.6/src/api.rs:204-296,350-357) reached at 503-511; and every index operation
-        of get (721-793), ban/unban/is_banned/try_unban (943-1013), servers/pool_state/
-        address (1055-1076), admin.rs:355-360 and auth_passthrough.rs:127, each as a checked
+        of get (724-802), ban/unban/is_banned/try_unban (952-1022), servers/pool_state/
+        address (1064-1085), admin.rs:355-360 and auth_passthrough.rs:127, each as a checked
         [nth_error].
+    (line numbers as of /repo commit dae4e52)
 
     The configuration is the value AFTER toml/serde produced the Rust structs (typed roles,
     ports, sizes); the only deserialiser modelled is the hand-written one of DefaultShard.
@@ -93,7 +94,7 @@ Definition role_eqb (a b : role) : bool :=
   | _, _ => false
   end.
 
-(* config.rs:853 *)
+(* config.rs:880 *)
 Inductive dshard := DShard (n : Z) | DRandom | DRandomHealthy.
 
 Fixpoint strip_prefix (p s : str) : option str :=
@@ -103,7 +104,7 @@ Fixpoint strip_prefix (p s : str) : option str :=
   | _ :: _, [] => None
   end.
 
-(* config.rs:874-893: strip "shard_" then parse::<usize>(), else "random" / "random_healthy";
+(* config.rs:901-920: strip "shard_" then parse::<usize>(), else "random" / "random_healthy";
    anything else is a deserialisation error (the whole file is rejected). *)
 Definition deser_default_shard (s : str) : option dshard :=
   match strip_prefix s_shard_ s with
@@ -154,7 +155,7 @@ Record config := {
   g_connect_timeout : Z; g_idle_timeout : Z; g_server_lifetime : Z;
   c_pools : list pool }.
 
-(* General::default_* (config.rs:374, 397, 370), used by the driver for omitted keys *)
+(* General::default_* (config.rs:390, 413, 386), used by the driver for omitted keys *)
 Definition default_connect_timeout : Z := 1000.
 Definition default_idle_timeout : Z := 600000.
 Definition default_server_lifetime : Z := 3600000.
@@ -183,7 +184,7 @@ Fixpoint count_primary (l : list server) : Z :=
   | s :: r => (match sv_role s with Primary => 1 | _ => 0 end) + count_primary r
   end.
 
-(* the HashSet of config.rs:914-923: one representative per (host, port, role) *)
+(* the HashSet of config.rs:941-950: one representative per (host, port, role) *)
 Fixpoint distinct (l : list server) : list server :=
   match l with
   | [] => []
@@ -200,7 +201,7 @@ Definition shard_validate (sh : shard) : bool :=
          else Nat.eqb (length (distinct (sh_servers sh))) (length (sh_servers sh))
   end.
 
-(* config.rs:701-713: Err at the first key that is not a usize or shard that is invalid *)
+(* config.rs:717-729: Err at the first key that is not a usize or shard that is invalid *)
 Fixpoint shard_numbers (l : list (str * shard)) : option (list Z) :=
   match l with
   | [] => Some []
@@ -223,7 +224,7 @@ Fixpoint insertZ (x : Z) (l : list Z) : list Z :=
 Fixpoint isortZ (l : list Z) : list Z :=
   match l with [] => [] | x :: r => insertZ x (isortZ r) end.
 
-(* config.rs:719-722: .iter().enumerate().any(|(position, n)| position != *n) negated *)
+(* config.rs:733-738: .iter().enumerate().any(|(position, n)| position != *n) negated *)
 Fixpoint check_enum (i : nat) (l : list Z) : bool :=
   match l with
   | [] => true
@@ -236,14 +237,14 @@ Definition role_setting_ok (s : str) : bool :=
 Definition regex_bad (o : option bool) : bool :=
   match o with Some false => true | _ => false end.
 
-(* config.rs:756-773: quotes removed, then exactly two '.'-separated parts *)
+(* config.rs:772-789: quotes removed, then exactly two '.'-separated parts *)
 Definition auto_key_ok (o : option str) : bool :=
   match o with
   | None => true
   | Some k => Nat.eqb (length (filter (fun c => c =? 46) (filter (fun c => negb (c =? 34)) k))) 1
   end.
 
-(* config.rs:685-804, in order *)
+(* config.rs:701-831, in order *)
 Definition pool_validate (p : pool) : bool :=
   if negb (role_setting_ok (p_default_role p)) then false else
   match shard_numbers (p_shards p) with
@@ -265,7 +266,7 @@ Definition pool_validate (p : pool) : bool :=
     else true
   end.
 
-(* config.rs:1106-1122 (only is_some() matters afterwards) *)
+(* config.rs:1139-1155 (only is_some() matters afterwards) *)
 Definition fill_pool (c : config) (p : pool) : pool :=
   {| p_name := p_name p; p_default_role := p_default_role p; p_default_shard := p_default_shard p;
      p_parser := p_parser p; p_rw_split := p_rw_split p; p_plugins := p_plugins p;
@@ -284,20 +285,20 @@ Definition fill_up (c : config) : config :=
      g_server_lifetime := g_server_lifetime c;
      c_pools := map (fill_pool c) (c_pools c) |}.
 
-(* config.rs:1488-1518 for one pool *)
+(* config.rs:1533-1563 for one pool *)
 Definition pool_auth_bad (p : pool) : bool :=
   (p_auth_query p && (negb (p_auth_user p) || negb (p_auth_password p)))
   || existsb (fun ku => (negb (p_auth_query p) || negb (p_auth_password p) || negb (p_auth_user p))
                         && negb (u_password (snd ku))) (p_users p).
 
-(* config.rs:1472-1554 (the TLS block, 1521-1547, is outside the grammar: no certificate set) *)
+(* config.rs:1505-1599 (the TLS block, 1566-1592, is outside the grammar: no certificate set) *)
 Definition config_validate (c : config) : bool :=
   if g_auth_query c && (negb (g_auth_user c) || negb (g_auth_password c)) then false else
   if (g_connect_timeout c =? 0) || (g_idle_timeout c =? 0) || (g_server_lifetime c =? 0) then false else
   if existsb pool_auth_bad (c_pools c) then false else
   forallb pool_validate (c_pools c).
 
-(* config.rs:1595-1596 *)
+(* config.rs:1640-1641 *)
 Definition accept (c : config) : bool := config_validate (fill_up c).
 
 (** ** from_config *)
@@ -447,7 +448,7 @@ Definition role_setting (s : str) : option (option role) :=
 Definition mk_pool (u : user) (a : address) : bb8pool :=
   {| b_address := a; b_max_size := u_pool_size u; b_min_idle := u_min_pool_size u |}.
 
-(* pool.rs:344-601 for one (pool, user) *)
+(* pool.rs:344-610 for one (pool, user) *)
 Definition build_pool_user (c : config) (p : pool) (u : user) : outcome built :=
   match keyed (p_shards p) with
   | None => Panics PanicKeyI64
@@ -501,21 +502,21 @@ Definition build (c : config) : outcome (list built) :=
   build_pools (fill_up c) (c_pools (fill_up c)) [].
 
 (** ** Index operations of the running pooler, each as a checked lookup *)
-Definition shards (bp : built) : nat := length (bp_databases bp).            (* pool.rs:1024 *)
-Definition servers (bp : built) (s : nat) : option nat :=                    (* pool.rs:1055 *)
+Definition shards (bp : built) : nat := length (bp_databases bp).            (* pool.rs:1033 *)
+Definition servers (bp : built) (s : nat) : option nat :=                    (* pool.rs:1064 *)
   option_map (@length address) (nth_error (bp_addresses bp) s).
-Definition address_at (bp : built) (s i : nat) : option address :=           (* pool.rs:1074 *)
+Definition address_at (bp : built) (s i : nat) : option address :=           (* pool.rs:1083 *)
   match nth_error (bp_addresses bp) s with Some row => nth_error row i | None => None end.
-Definition pool_state_at (bp : built) (s i : nat) : option bb8pool :=        (* pool.rs:1069 *)
+Definition pool_state_at (bp : built) (s i : nat) : option bb8pool :=        (* pool.rs:1078 *)
   match nth_error (bp_databases bp) s with Some row => nth_error row i | None => None end.
-(* get: self.databases[address.shard][address.address_index] (pool.rs:793);
-   busy_connection_count: pool_state(address.shard, address.address_index) (1084) *)
+(* get: self.databases[address.shard][address.address_index] (pool.rs:802);
+   busy_connection_count: pool_state(address.shard, address.address_index) (1093) *)
 Definition get_index (bp : built) (a : address) : option bb8pool :=
   pool_state_at bp (Z.to_nat (a_shard a)) (a_index a).
-(* ban / unban / is_banned: guard[address.shard] (pool.rs:943, 950, 958) *)
+(* ban / unban / is_banned: guard[address.shard] (pool.rs:952, 959, 967) *)
 Definition ban_index (bp : built) (a : address) : bool :=
   match nth_error (bp_banlist bp) (Z.to_nat (a_shard a)) with Some _ => true | None => false end.
-(* try_unban: self.addresses[address.shard] and guard[address.shard] (pool.rs:975-1013) *)
+(* try_unban: self.addresses[address.shard] and guard[address.shard] (pool.rs:984-1022) *)
 Definition try_unban_index (bp : built) (a : address) : bool :=
   match nth_error (bp_addresses bp) (Z.to_nat (a_shard a)) with
   | Some _ => ban_index bp a
@@ -527,12 +528,12 @@ Definition all_addresses (bp : built) : list address := concat (bp_addresses bp)
 Definition role_matches (r : option role) (x : role) : bool :=    (* config.rs:51-67 *)
   match r with None => true | Some y => role_eqb x y end.
 
-(* pool.rs:732-746: filter by role, then retain the selected shard NUMBER
+(* pool.rs:741-755: filter by role, then retain the selected shard NUMBER
    (the shuffle / load-balancing order is not modelled: a set of candidates) *)
 Definition candidates (bp : built) (sh : Z) (r : option role) : list address :=
   filter (fun a => a_shard a =? sh) (filter (fun a => role_matches r (a_role a)) (all_addresses bp)).
 
-(* pool.rs:721-760.  None = Err(InvalidShardId) *)
+(* pool.rs:730-769.  None = Err(InvalidShardId) *)
 Definition get_candidates (bp : built) (shard : option Z) (r : option role) : option (list address) :=
   let n := Z.of_nat (shards bp) in
   let byrole := filter (fun a => role_matches r (a_role a)) (all_addresses bp) in
